@@ -197,6 +197,8 @@ func init() {
 			Run: func(P *Program, R *Report) {
 				sharedRule(P, R, "C10", "C10.b", "C11.m", func(c string) bool { return !strings.Contains(c, "memo-ignores-pk-and-data") })
 			}},
+		Rule{ID: "C11.n", Explain: "no failure is dropped while making and checking non-revocation proofs and witnesses (revocation/proof.go and the non-revocation parts of credential.go) (same rule as C08.g: the error a call returns has a use - a nil test or a return - before it is overwritten, shadowed or left behind).",
+			Run: func(P *Program, R *Report) { errorResultsUsedRule(P, R, "C11.n", inFiles(P, "revocation/proof.go", "credential.go"), nil, 10) }},
 	)
 }
 
